@@ -449,7 +449,7 @@ func runC16(r *Run) {
 					// the single-flight flag of the finished recovery is cleared just after the callback returns; a loss
 					// reported before that is left to the keepalive (disabled here) - see DESIGN.md, C08 observations
 					time.Sleep(30 * time.Millisecond)
-					acts += fmt.Sprintf("CL RB DD.1 AD.1 X.%d.r X.%d.w X.%d.d ", i, i, i)
+					acts += fmt.Sprintf("CL RB DD.1 AD.1 FN X.%d.r X.%d.w X.%d.d ", i, i, i)
 				}
 				if okc {
 					o := f.observe(false)
